@@ -111,6 +111,10 @@ def lc(a, b):
     return a == "I" or b == "I" or a == b
 
 
+def is_idw(w):
+    return all(l == "I" for l in w)
+
+
 def rel_py(gt, u, v):
     if gt == "qwc":
         return all(lc(a, b) for a, b in zip(u, v))
@@ -204,7 +208,7 @@ def direct_oracle(c, order, o, stats):
                 for x in range(len(g)):
                     for y in range(x + 1, len(g)):
                         if not rel_py(gt, words[g[x]], words[g[y]]):
-                            if gt == "anticommuting" and (wireless[g[x]] or wireless[g[y]]):
+                            if gt == "anticommuting" and any(wireless) and (is_idw(words[g[x]]) or is_idw(words[g[y]])):
                                 finds.append(F_WIRELESS)
                             else:
                                 probs.append(f"indices {g[x]},{g[y]} grouped by compute_partition_indices but not {gt}")
@@ -228,7 +232,7 @@ def direct_oracle(c, order, o, stats):
         for x in range(len(g)):
             for y in range(x + 1, len(g)):
                 if not rel_py(gt, g[x][0], g[y][0]):
-                    if gt == "anticommuting" and (not g[x][1] or not g[y][1]):
+                    if gt == "anticommuting" and any(wireless) and (is_idw(g[x][0]) or is_idw(g[y][0])):
                         finds.append(F_WIRELESS)
                     else:
                         probs.append(f"{g[x][0]} and {g[y][0]} grouped by group_observables but not {gt}")
